@@ -151,3 +151,16 @@ pub fn running_with(n: usize) -> String {
 pub fn empty_config() -> String {
     format!("<configuration xmlns=\"{XNM}\"><policy-options></policy-options></configuration>")
 }
+
+/// a running configuration with the given (name, filter expression) annotated statements
+pub fn running_with_exprs(stmts: &[(String, String)]) -> String {
+    let mut s = format!("<configuration xmlns=\"{XNM}\"><policy-options>");
+    for (name, expr) in stmts {
+        let e = expr.replace('&', "&amp;").replace('<', "&lt;").replace('"', "&quot;");
+        s.push_str(&format!(
+            "<policy-statement xmlns:jcmd=\"http://yang.juniper.net/junos/jcmd\" jcmd:comment=\"/* bgpfu-fltr: {e} */\"><name>{name}</name><then><reject/></then></policy-statement>"
+        ));
+    }
+    s.push_str("</policy-options></configuration>");
+    s
+}
